@@ -86,6 +86,7 @@ func c19StaticCases(tab *LockTable, tbl, typ string, only *c19Replay) []Case {
 		}
 		add(fmt.Sprintf("KCalls %s %s", tbl, Q(m.Name)), c19Replay{Kind: "calls", Method: m.Name}, false)
 		add(fmt.Sprintf("KReturn %s %s", tbl, Q(m.Name)), c19Replay{Kind: "return", Method: m.Name}, len(m.Body) > 0)
+		add(fmt.Sprintf("KAtomic %s %s", tbl, Q(m.Name)), c19Replay{Kind: "atomic", Method: m.Name}, len(m.Body) > 0)
 	}
 	return cs
 }
